@@ -10,6 +10,7 @@ import (
 	"fmt"
 	"math"
 	"sort"
+	"strconv"
 	"strings"
 
 	"pgregory.net/rapid"
@@ -222,7 +223,97 @@ func genMetricCase(rt *rapid.T) MetricCase {
 	return c
 }
 
-func genMetric(rt *rapid.T) MetricCase { return genMetricCase(rt) }
+// genTopCmpCase aims at `topk(k, X) cmp v`, `bottomk(k, X) cmp v` and `topk(k, X cmp v)`: a
+// broad selector over up to 6 series that share range buckets (window shorter than two
+// ranges), a range function with spread-out values (bytes, unwrapped sums), k smaller than
+// the number of series, all six comparison operators, thresholds taken from the middle of
+// the values, so that filtering before the ranking and after it give different answers.
+func genTopCmpCase(rt *rapid.T) MetricCase {
+	var c MetricCase
+	r := rapid.SampledFrom(mkDurs("5s", "10s", "30s", "1m", "20s", "15s")).Draw(rt, "trange")
+	from := c07.Midnight + int64(rapid.IntRange(-40, 40).Draw(rt, "tfrom"))
+	c.W = c07.Window{FromS: from, ToS: from + int64(rapid.IntRange(1, int(r.ns/1e9)).Draw(rt, "tlen"))}
+	c.StepMs = rapid.SampledFrom([]int64{r.ns / 1e6, r.ns / 2e6, 1000, r.ns / 1e6 * 2}).Draw(rt, "tstep")
+	c.DB = c07.GenDB(rt, c.W, c07.DBOpt{MinSeries: 4, MaxSeries: 7, MaxSamples: 6, SpreadNs: 2e9, GridNs: r.ns})
+	e := refeval.Expr{RangeN: r.n, RangeUnit: r.unit}
+	e.Matchers = []refeval.Matcher{{Name: rapid.SampledFrom([]string{"app", "env"}).Draw(rt, "tm"), Op: "=~", Val: ".+"}}
+	switch rapid.IntRange(0, 3).Draw(rt, "tfn") {
+	case 0:
+		e.RangeFn = "bytes_over_time"
+	case 1:
+		e.RangeFn = "bytes_rate"
+	case 2:
+		e.RangeFn = "count_over_time"
+	default:
+		e.Stages = []refeval.Stage{{Kind: refeval.KJSON, Params: []refeval.Param{{Name: "v", Val: "n"}}}, {Kind: refeval.KUnwrap, Label: "v"}}
+		e.RangeFn = rapid.SampledFrom([]string{"sum_over_time", "max_over_time"}).Draw(rt, "tufn")
+		e.RangeGroup = &refeval.Grouping{Without: true, Labels: []string{"v"}}
+	}
+	if rapid.IntRange(0, 2).Draw(rt, "tagg") == 0 {
+		e.AggFn = rapid.SampledFrom([]string{"sum", "max", "min"}).Draw(rt, "taggfn")
+		e.AggGroup = &refeval.Grouping{Labels: []string{rapid.SampledFrom([]string{"app", "env", "job"}).Draw(rt, "tagl"), "lvl"}}
+	}
+	e.TopFn = rapid.SampledFrom([]string{"topk", "bottomk"}).Draw(rt, "ttop")
+	e.TopK = rapid.SampledFrom([]int{1, 1, 2, 2, 3}).Draw(rt, "tk")
+	// thresholds from the middle of what the range function yields on this data
+	var pool []string
+	switch e.RangeFn {
+	case "bytes_over_time":
+		pool = []string{"10", "20", "30", "45", "60", "100"}
+	case "bytes_rate":
+		pool = []string{"1", "2", "4", "0.5", "8"}
+	case "count_over_time":
+		pool = []string{"1", "2", "3"}
+	default:
+		pool = []string{"1", "2", "7", "10", "42", "3.5"}
+	}
+	// better: the values this very query yields before ranking (the generator may evaluate
+	// the reference: it is a pure function of what was drawn)
+	probe := e
+	probe.TopFn = ""
+	if pr, err := refeval.EvalMetricSQL(&probe, c.DB.Ref(), refeval.MetricParams{FromNs: c.W.FromNs(), ToNs: c.W.ToNs(), StepNs: c.StepMs * 1e6}); err == nil {
+		var vals []string
+		for _, sr := range pr.Buckets {
+			for _, sm := range sr.Samples {
+				if sm.Value > 0 && sm.Value < 1e9 {
+					vals = append(vals, strconv.FormatFloat(math.Round(sm.Value*1000)/1000, 'f', -1, 64))
+				}
+			}
+		}
+		if len(vals) > 0 && len(vals) <= 64 {
+			pool = append(vals, pool[0])
+		}
+	}
+	cmp := func() *refeval.Comparison {
+		return &refeval.Comparison{Op: rapid.SampledFrom([]string{"==", "!=", ">", ">=", "<", "<="}).Draw(rt, "tcop"), Val: rapid.SampledFrom(pool).Draw(rt, "tcv")}
+	}
+	switch rapid.IntRange(0, 4).Draw(rt, "twhere") {
+	case 0, 1, 2:
+		e.TopCmp = cmp() // topk(k, X) cmp v
+	case 3:
+		if e.AggFn != "" { // topk(k, X cmp v)
+			e.AggCmp = cmp()
+		} else {
+			e.RangeCmp = cmp()
+		}
+	default:
+		e.TopCmp = cmp()
+		if e.AggFn != "" {
+			e.AggCmp = cmp()
+		} else {
+			e.RangeCmp = cmp()
+		}
+	}
+	c.Q = e
+	return c
+}
+
+func genMetric(rt *rapid.T) MetricCase {
+	if c07.Chance(rt, "topcmp", 30) {
+		return genTopCmpCase(rt)
+	}
+	return genMetricCase(rt)
+}
 
 // ---- comparison --------------------------------------------------------------------------------
 
@@ -410,6 +501,12 @@ func TagMetric(o *evid.Obs, c *MetricCase) {
 	}
 	if e.TopFn != "" {
 		o.Tag(e.TopFn)
+		if e.TopCmp != nil {
+			o.Tag(e.TopFn+"-then-cmp", e.TopFn+"-then-cmp"+e.TopCmp.Op)
+		}
+		if e.RangeCmp != nil || e.AggCmp != nil {
+			o.Tag("cmp-inside-" + e.TopFn)
+		}
 	}
 	if c.Cluster {
 		o.Tag("cluster")
@@ -456,11 +553,71 @@ func reference(c *MetricCase, o *evid.Obs) (res refeval.MetricResultSQL, discard
 	if len(res.Flags.DontCare) > 0 {
 		return res, "dontcare:" + res.Flags.DontCare[0]
 	}
+	if thresholdSensitive(c, &res) {
+		return res, "dontcare:value-within-1e-9-of-comparison-threshold"
+	}
 	alt, err := refeval.EvalMetricSQL(c07.DotNL(&c.Q), c.DB.Ref(), c.params())
 	if err != nil || fmt.Sprint(alt.Series) != fmt.Sprint(res.Series) {
 		return res, "dontcare:regex-dot-vs-newline"
 	}
 	return res, ""
+}
+
+// thresholdSensitive: values are compared with a relative tolerance of 1e-9, so a comparison
+// whose outcome flips when its threshold moves by 1e-9 (a non-integer value sitting exactly
+// on the threshold: sums of quotients depend on the order of summation in the last bit) is
+// not decidable. Integer-valued pipelines (counts, bytes, sums of integers) are exact in
+// both evaluators and stay decidable.
+func thresholdSensitive(c *MetricCase, base *refeval.MetricResultSQL) bool {
+	e := &c.Q
+	if e.RangeCmp == nil && e.AggCmp == nil && e.TopCmp == nil {
+		return false
+	}
+	probe := *e
+	probe.RangeCmp, probe.AggCmp, probe.TopCmp, probe.TopFn = nil, nil, nil, ""
+	integral := true
+	check := func(q *refeval.Expr) {
+		r, err := refeval.EvalMetricSQL(q, c.DB.Ref(), c.params())
+		if err != nil {
+			integral = false
+			return
+		}
+		for _, sr := range r.Buckets {
+			for _, sm := range sr.Samples {
+				if sm.Value != math.Trunc(sm.Value) || math.Abs(sm.Value) > 1e15 {
+					integral = false
+				}
+			}
+		}
+	}
+	check(&probe)
+	if probe.AggFn != "" {
+		noAgg := probe
+		noAgg.AggFn, noAgg.AggGroup = "", nil
+		check(&noAgg)
+	}
+	if integral {
+		return false
+	}
+	for _, f := range []float64{1 + 1e-9, 1 - 1e-9} {
+		alt := *e
+		mv := func(cm *refeval.Comparison) *refeval.Comparison {
+			if cm == nil {
+				return nil
+			}
+			v, err := strconv.ParseFloat(cm.Val, 64)
+			if err != nil {
+				return cm
+			}
+			return &refeval.Comparison{Op: cm.Op, Val: strconv.FormatFloat(v*f, 'g', -1, 64)}
+		}
+		alt.RangeCmp, alt.AggCmp, alt.TopCmp = mv(e.RangeCmp), mv(e.AggCmp), mv(e.TopCmp)
+		r, err := refeval.EvalMetricSQL(&alt, c.DB.Ref(), c.params())
+		if err != nil || fmt.Sprint(r.Series) != fmt.Sprint(base.Series) {
+			return true
+		}
+	}
+	return false
 }
 
 func predMetric(c MetricCase, o *evid.Obs) error {
@@ -493,6 +650,30 @@ func predMetric(c MetricCase, o *evid.Obs) error {
 		return nil
 	}
 	got := collectGot(&out)
+	if out.Rewritten() {
+		o.Tag("assumption:having-as-filter(new analyzer)")
+	}
+	if c.Q.TopFn != "" && c.Q.TopCmp != nil {
+		// would filtering BEFORE the ranking have given another answer?
+		alt := c.Q
+		alt.TopCmp = nil
+		if alt.AggFn != "" {
+			if alt.AggCmp == nil {
+				alt.AggCmp = c.Q.TopCmp
+			} else {
+				alt.AggFn = "" // both present: no single swapped form; skip the classification
+			}
+		} else if alt.RangeCmp == nil {
+			alt.RangeCmp = c.Q.TopCmp
+		} else {
+			alt.TopFn = ""
+		}
+		if alt.TopFn != "" && (c.Q.AggFn == "" || alt.AggFn != "") {
+			if ar, err := refeval.EvalMetricSQL(&alt, c.DB.Ref(), c.params()); err == nil && fmt.Sprint(ar.Series) != fmt.Sprint(ref.Series) {
+				o.Tag("top-cmp-order-matters")
+			}
+		}
+	}
 
 	// non-trivial: >= 2 output series or >= 2 buckets, and the pipeline excluded something
 	nb := 0
